@@ -328,13 +328,20 @@ def gen_env(rng, m, env):
     elif env in ('real2', 'real3', 'real4'):
         k = int(env[-1])
         c = rng.choice([5.0, 12.0, 30.0])
+        ideal_last = rng.random() < 0.15
         for i in range(k):
             eps = rng.choice([13, 5, 80, 10])
             sig = rng.choice([0.005, 0.001, 0.03])
             hgt = 0 if i == 0 else -rng.choice([0.0, 0.5, 2.0])
+            if ideal_last and i == k - 1:
+                eps, sig, hgt = 0, 0, 0        # a perfectly conducting outer region
+                m.features.append('ideal_medium_last')
             v = '--medium=%s,%s,%s' % (_g(eps), _g(sig), _g(hgt))
-            if i < k - 1:
+            if i < k - 1 and rng.random() < 0.88:
                 v += ',%s' % _g(c * (i + 1))
+            elif i < k - 1:
+                # valid but unusual: no interface coordinate (defaults to 1e6)
+                m.features.append('medium_coord_omitted')
             a.append(v)
         circ = rng.random() < 0.5
         if rng.random() < 0.4:
@@ -497,7 +504,22 @@ def variant_model(rng, m):
     import copy
     v = copy.deepcopy(m)
     how = rng.choice(['scale', 'scale', 'same', 'load_value', 'voltage', 'translate', 'rotate', 'drop_loads',
-                      'taper', 'segments', 'radius'])
+                      'taper', 'segments', 'radius', 'media_form', 'media_form'])
+    if how == 'media_form':
+        # the same kind of environment written in another form: interface
+        # coordinate dropped or added, other boundary, radials on/off
+        idx = [i for i, x in enumerate(v.argv_env) if x.startswith('--medium=')]
+        if len(idx) >= 2:
+            i = idx[0]
+            parts = v.argv_env[i].split('=', 1)[1].split(',')
+            if len(parts) == 4:
+                v.argv_env[i] = '--medium=' + ','.join(parts[:3])
+            else:
+                v.argv_env[i] = '--medium=' + ','.join(parts + [_g(rng.choice([5.0, 20.0]))])
+            if rng.random() < 0.3:
+                v.argv_env = [x for x in v.argv_env if not x.startswith('--radial')]
+        else:
+            how = 'voltage'
     ground = m.env != 'free'
     if how == 'scale':
         have = [i for i, x in enumerate(v.argv_geo) if x == '--geo-scale']
@@ -690,10 +712,18 @@ class ApiState:
                 return False
             self.near = op[1]
             return True
+        if k == 'FAR_BAD':
+            if self.computed:
+                self.far = None
+            return self.computed
+        if k == 'NEAR_BAD':
+            if self.computed:
+                self.near = None
+            return self.computed
         return True     # observations are always executable
 
     def can(self, op):
-        if op[0] in ('FAR', 'NEAR'):
+        if op[0] in ('FAR', 'NEAR', 'FAR_BAD', 'NEAR_BAD'):
             return self.computed
         return True
 
@@ -754,10 +784,18 @@ def gen_api_ops(rng, npool, nfar, nnear, maxops):
                 op = ['OBS_REPORT', opts]
             elif r < 0.95:
                 op = ['OBS_CMDLINE']
-            elif r < 0.985:
+            elif r < 0.975:
                 op = ['OBS_BASIC', rng.choice(['9', '9', '12', '13'])]
-            else:
+            elif r < 0.988:
                 op = ['OBS_MISC', rng.randrange(1000)]
+            else:
+                # a malformed field request that raises inside the program
+                op = [rng.choice(['NEAR_BAD', 'FAR_BAD']), rng.randrange(7)]
+        if op[0] in ('SET_F', 'COMPUTE', 'FAR', 'NEAR') and rng.random() < 0.05 \
+                and not (len(op) > 2 and op[2] == 'x'):
+            # Ctrl-C at a seeded call event inside the operation, then the
+            # caller issues it again
+            op = op + [{'interrupt': int(10 ** rng.uniform(0, 3.4))}]
         st.apply(op)
         ops.append(op)
     # make sure the history ends observable
@@ -886,6 +924,8 @@ def gen_cli_task(rng, maxops=8, env=None, kinds=None, model=None, pool=None):
             if '--output-cmdline' in c['argv'] and rng.random() < 0.08:
                 p = c['argv'][c['argv'].index('--output-cmdline') + 1]
                 op.append({'torn': {p: rng.randrange(0, 40)}})
+            elif rng.random() < 0.06:
+                op.append({'interrupt': int(10 ** rng.uniform(0.5, 4.2))})
             ops.append(op)
         elif r < 0.72:
             m = c['model']
@@ -1079,7 +1119,7 @@ def floor_plans(base_seed, tier='quick'):
                                   disk={'floor.txt': 'STALE ' * 500} if t is cli else {},
                                   tasks=[t], schedule=[0] * len(t['ops'])))
     # long histories: many repetitions on a tiny model
-    for j, (kind, count) in enumerate([('api', 70), ('api', 140), ('sweep', 66), ('runs', 70)]):
+    for j, (kind, count) in enumerate([('api', 70), ('api', 140), ('api', 140), ('api', 270), ('sweep', 66), ('runs', 70)]):
         plans.append(long_plan(base_seed * 1000003 + 950000 + j, tier, kind, count))
     return plans
 
@@ -1177,6 +1217,14 @@ def tiny_model(rng):
 def gen_long_api_task(rng, cycles):
     m = tiny_model(rng)
     pool, probes = gen_pool(rng, m, k=rng.choice([2, 3, 5]))
+    if rng.random() < 0.5:
+        # many distinct frequencies, revisited at random: bounded caches
+        # keyed by frequency only misbehave after enough distinct keys
+        nf = rng.choice([9, 12, 20, 40])
+        f0 = pool[0]
+        pool = [float(repr(round(f0 * (0.7 + 0.6 * i / nf), 6))) for i in range(nf)]
+        rng.shuffle(pool)
+        probes = probes + ['large_frequency_pool']
     fars = [[[0, 45, 2], [0, 90, 1], None, 0], [[10, 30, 2], [0, 90, 2], 100.0, 1000.0]]
     nears = [[[1.0, 1.0, 2.0], [1.0, 1.0, 1.0], [1, 1, 2], None]]
     ops = []
